@@ -98,6 +98,9 @@ theorem run_pol (fuel : Nat) (ops : List AppOp) (st : St) : (St.run fuel st ops)
     | header =>
       simp only [St.step]; unfold St.opHeader
       exact (endHeader_pol _ _).trans (withRetry_frame _ _ _).pol
+    | cancel =>
+      simp only [St.step, St.opCancel]
+      exact ((finish_frame _ _).trans (settle_frame _)).pol
 
 /-- Bounded: every attempt ever created carries `grpc-previous-rpc-attempts` = number of earlier
     non-transparent attempts (`prev`), and the attempt's number `prev + 1` never exceeds the
